@@ -1,14 +1,18 @@
 """Driver configuration for C17."""
 
 CFG = dict(
-    tests=["TestC17"],
+    tests=["TestC17", "TestC17Plugin"],
     n_quick=120, n_thorough=1200, shards_thorough=4,
     rule="corpus + ~55 boundary families (single accept; accept+perform; accept+stale; log below min confirmations then enough; "
          "log before accept; re-orged perform to a later / earlier / the same block; perform then stale and reverse; several logs in one "
          "poll; two keys of one id with crossing check blocks and late logs; superseded key; accept again; transmit block 2^64 and above; "
          "check block 0 / 2^64-1 / above 2^64; minConfs 0 and negative; lockout expiry just before / at / after s+window; re-arming; "
          "activeKeys 1 h expiry) + VERIF_N random histories (1-3 ids, 1-4 check blocks, 3-12 ops) from one PRNG, each accept-first random "
-         "history re-run in 20 random admissible re-orderings on fresh coordinators; a case is non-trivial when its history has an "
+         "history re-run in 20 random admissible re-orderings on fresh coordinators; plug-in part (cases_plugin): the v2 plug-in from NewReportingPluginFactory over the real CoordinatorFactory + BasicEncoder; "
+         "reports with 2-4 keys, every subset of keys confirmed (perform / stale logs), ShouldTransmitAcceptedReport asked for every arrangement "
+         "of the keys, every single key and every pair; never-accepted and malformed keys, logs below min confirmations, accepts with a malformed key "
+         "first / middle / last, empty / undecodable reports + VERIF_N random plug-in histories; non-trivial there: a query mixing a confirmed and an "
+         "unconfirmed key. Coordinator part: a case is non-trivial when its history has an "
          "effective log and two accepted keys of one id; distinct = structural hash of the generator-form input",
     trusted=["fake LogProvider handing the scripted logs to exactly one poll of the real 1 s poller (testing/synctest virtual clock)",
              "real encoding.BasicEncoder for SplitUpkeepKey / After / Increment"],
